@@ -281,7 +281,9 @@ contract('schema.BaseParser.end_key',
                          carries='C10,C11', label='wildcard-defaults-keyed-by-keys-normalised-under-the-enclosing-key-type')],
          raises=[SCHEMA_ERROR, Raise('ZConfig.DataConversionError', carries='C10',
                                      label='default-key-refused-by-the-key-type (known finding KF-C10-default-key)')])
-model('schema.SchemaParser', fields={'_extending_parser': 'Opt[Ref[schema.SchemaParser]]'})
+MODELS['schema.BaseParser'].fields['_extending_parser'] = 'Opt[Ref[schema.SchemaParser]]'   # (None except on a SchemaParser that extends)
+MODELS['schema.BaseParser'].late_fields = ('_extending_parser',)
+model('schema.SchemaParser', fields={})
 assumed('schema.SchemaParser.__init__',
         params={'loader': 'Ref[loader.SchemaLoader]', 'url': 'Opt[str]', 'extending_parser': ('Opt[Ref[schema.SchemaParser]]', 'None')},
         ensures=[Clause('self._url == url and self._loader == loader and self._extending_parser == extending_parser')],
@@ -289,19 +291,21 @@ assumed('schema.SchemaParser.__init__',
 model('schema.ComponentParser', fields={'_parent': 'Ref[info.SchemaType]'})
 assumed('schema.ComponentParser.__init__',
         params={'loader': 'Ref[loader.SchemaLoader]', 'url': 'Opt[str]', 'schema': 'Ref[info.SchemaType]'},
-        ensures=[Clause('self._url == url and self._loader == loader and self._parent == schema')],
+        ensures=[Clause('self._url == url and self._loader == loader and self._parent == schema and self._extending_parser is None')],
         notes='stores its arguments: not verified')
 MODELS['loader.SchemaLoader'].bases = []
+SCHEMA_OBJS = ['*info.SectionType.*', '*info.BaseInfo.*', '*info.BaseKeyInfo.*', '*info.AbstractType._subtypes', '*dict:types.items', '*dict:components.items']
+NEW_PARSERS = ['+schema.BaseParser.*', '+schema.SchemaParser.*', '+schema.ComponentParser.*']
 assumed('xml.sax.parse', params={'source': 'Opt[Ref[File]]', 'handler': 'Ref[schema.BaseParser]'},
-        modifies=['source.lines', 'GHOST.open_files', '*info.SectionType.*', '*info.BaseInfo.*', '*info.BaseKeyInfo.*',
-                  '*info.AbstractType._subtypes', '*dict:types.items', '*dict:components.items', '*schema.BaseParser._prefixes', '*schema.BaseParser._schema', '*schema.BaseParser._stack', '*schema.BaseParser._elem_stack', '*schema.BaseParser._cdata', '*schema.BaseParser._locator'],
+        modifies=['source.lines', 'GHOST.open_files', 'handler._prefixes', 'handler._schema', 'handler._stack', 'handler._elem_stack', 'handler._cdata', 'handler._locator', 'handler._extending_parser._base_keytypes', 'handler._extending_parser._base_datatypes', 'handler._extending_parser._descriptions'] + SCHEMA_OBJS + NEW_PARSERS,
         ensures=[Clause('GHOST.open_files == old(GHOST.open_files)')],
         raises=[Raise('Exception+', then=[Clause('GHOST.open_files == old(GHOST.open_files)')])],
-        notes='xml.sax delivers the events of the document to the handler, which may load further resources '
-              '(each closed again: contracts of extendSchema / loadComponent / loadURL) and may raise anything')
-SAX_MOD = ['GHOST.open_files', '*info.SectionType.*', '*info.BaseInfo.*', '*info.BaseKeyInfo.*',
-           '*info.AbstractType._subtypes', '*dict:types.items', '*dict:components.items', '*schema.BaseParser._prefixes', '*schema.BaseParser._schema', '*schema.BaseParser._stack', '*schema.BaseParser._elem_stack', '*schema.BaseParser._cdata', '*schema.BaseParser._locator']
-contract('schema.SchemaParser.extendSchema', params={'src': 'str'}, modifies=SAX_MOD,
+        notes='xml.sax delivers the events of the document to the handler (which changes its own state, the schema objects '
+              'it builds, the inheritance lists of the parser it extends, and parsers it creates itself); it may load further '
+              'resources (each closed again: contracts of extendSchema / loadComponent / loadURL) and may raise anything')
+SAX_MOD = ['GHOST.open_files'] + SCHEMA_OBJS + NEW_PARSERS
+contract('schema.SchemaParser.extendSchema', params={'src': 'str'},
+         modifies=SAX_MOD + ['self._base_keytypes', 'self._base_datatypes', 'self._descriptions'],
          asserts=[At('args[0] == self._loader and args[1] == src and args[2] == self', call='SchemaParser', carries='C18,C11',
                      label='base-schema-parsed-with-ITS-OWN-url-into-the-extending-parsers-schema'),
                   At('args[0] == src', call='self._loader.openResource', carries='C18', label='base-schema-opened-from-that-url')],
@@ -316,3 +320,44 @@ contract('schema.BaseParser.loadComponent', params={'src': 'str'},
          ensures=[Clause('GHOST.open_files == old(GHOST.open_files)', carries='C19', label='component-resource-closed')],
          raises=[Raise('Exception+', then=[Clause('GHOST.open_files == old(GHOST.open_files)', carries='C19',
                                                   label='component-resource-closed-when-parsing-fails')])])
+
+# ---- <schema> element: creation or extension of the schema, inheritance of key type / datatype (C11) ---------------------
+MODELS['schema.SchemaParser'].fields.update({'_base_keytypes': 'Seq[Fun[kt]]', '_base_datatypes': 'Seq[Opt[Fun[sdt]]]',
+                                             '_descriptions': 'Seq[str]'})
+assumed('str.split', params={'self': 'str'}, returns='Seq[str]', pure=True,
+        notes='str.split(): the whitespace-separated words')
+SP_MOD = ['self._base_keytypes', 'self._base_datatypes', 'self._descriptions',
+          'self._extending_parser._base_keytypes', 'self._extending_parser._base_datatypes']
+KT_DECL = 'sect_kt(attrs, None)'
+DT_DECL = 'sect_dt(attrs, None)'
+EXT = 'val(self._extending_parser)'
+contract('schema.SchemaParser.start_schema', params={'attrs': ATTRS},
+         requires=[REGISTRY['schema.BaseParser.push_prefix'].requires[0], REGISTRY['schema.BaseParser.push_prefix'].requires[1],
+                   Clause('implies(self._extending_parser is not None, %s._schema is not None)' % EXT,
+                          label='an-extending-parser-has-created-its-schema')],
+         modifies=['self._prefixes', 'self._schema', 'self._stack'] + SAX_MOD + SP_MOD,
+         asserts=[At('args[0] == self._url', call='url.urljoin', carries='C18',
+                     label='extends-references-resolve-against-the-url-of-the-schema-that-contains-them')],
+         ensures=[Clause('self._schema is not None and len(self._stack) == 1', carries='C10', label='schema-on-the-stack'),
+                  Clause("implies('keytype' in attrs or 'extends' not in attrs or len(self._base_keytypes) == 0, "
+                         "val(self._schema).keytype == %s)" % KT_DECL, carries='C11',
+                         label='own-key-type-when-declared-or-nothing-to-inherit'),
+                  Clause("implies('keytype' not in attrs and 'extends' in attrs and len(self._base_keytypes) > 0, "
+                         "val(self._schema).keytype == self._base_keytypes[0] and "
+                         "forall(lambda j: implies(0 <= j and j < len(self._base_keytypes), "
+                         "self._base_keytypes[j] == self._base_keytypes[0])))", carries='C11',
+                         label='key-type-inherited-from-the-bases-which-must-agree'),
+                  Clause("implies(self._extending_parser is not None, len(%s._base_keytypes) > 0 and "
+                         "%s._base_keytypes[-1] == val(self._schema).keytype and "
+                         "%s._base_datatypes[-1] == val(self._schema).datatype)" % (EXT, EXT, EXT), carries='C11',
+                         label='a-base-schema-reports-the-key-type-and-datatype-it-ENDS-UP-with-inherited-ones-included')],
+         raises=[Raise('Exception+', label='schema-error-or-failure-while-loading-a-base')],
+         loops=[Loop(invariant=[Clause('self._schema is not None and len(self._stack) == 1'),
+                                Clause('implies(self._extending_parser is not None, %s._schema is not None)' % EXT)],
+                     locals={'src': 'str', 'fragment': 'str'},
+                     modifies=SAX_MOD + SP_MOD),
+                Loop(invariant=[Clause('forall(lambda j: implies(1 <= j and j < 1 + _i1 and j < len(self._base_keytypes), '
+                                       'self._base_keytypes[j] == keytype))'),
+                                Clause('len(self._base_keytypes) > 0 and keytype == self._base_keytypes[0]')],
+                     locals={'kt': 'Fun[kt]'}, modifies=[]),
+                Loop(invariant=[], locals={'dt': 'Opt[Fun[sdt]]'}, modifies=[])])
